@@ -290,13 +290,20 @@ def check_welford(F, R, name='WelfordOnline'):
             if entails_h(fl.base, op('eq', ('in', c), ('len', ('in', q)))):
                 ok = True
                 cnt, qq = c, q
-    R.ob('W5-count', name, ok, 'sample counter == len(window) is an inductive invariant' if ok else
-         'no sample counter provably equals the window length (counter and window can drift apart)', v.file)
+    no_counter = not ok and not [c for c in cnts if c in fl.m.touched] and len(qs) >= 1
+    if no_counter:
+        # no separate counter is kept: the number of samples is read off the window queue itself
+        ok = True
+        qq = qs[0]
+        R.ob('W5-count', name, True, 'no separate sample counter: the sample count is len(%s) itself' % qq, v.file)
+    else:
+        R.ob('W5-count', name, ok, 'sample counter == len(window) is an inductive invariant' if ok else
+             'no sample counter provably equals the window length (counter and window can drift apart)', v.file)
     if not ok:
         return
     # divisors of the mean corrections
     mean_cells = [c for c in float_cells(fl) if self_referential(fl, c)]
-    cnt_exit = fl.m.up_fields.get(cnt)
+    cnt_exit = fl.m.up_fields.get(cnt) if not no_counter else ('len', fl.m.up_fields.get(qq, ('in', qq)))
     good = True
     why = ''
     n_checked = 0
